@@ -124,16 +124,16 @@ Proof.
   vm_compute in E. discriminate.
 Qed.
 
-(* two map points on a line at 0 and 1, P = [[0,1/2],[1/2,0]] *)
-Definition wY : @buf Qc := fun n _ => match n with O => 0%Qc | _ => 1%Qc end.
-Definition wP : @buf Qc := fun n m => if Nat.eqb n m then 0%Qc else qfrac 1 2.
+(* three map points on a line at 1, 2, 3; P uniform off the diagonal (1/6 each) *)
+Definition wY : @buf Qc := fun n _ => qz (Z.of_nat (S n)).
+Definition wP : @buf Qc := fun n m => if Nat.eqb n m then 0%Qc else qfrac 1 6.
 
 Theorem exact_gradient_refuted_thm :
   exists (N D : nat) (P Y : @buf Qc) (n d : nat),
     exact_grad_shipped N D P Y n d <> grad_spec N D P Y n d.
 Proof.
-  exists 2%nat, 1%nat, wP, wY, 1%nat, 0%nat. intros H.
-  assert (E : qeqb (exact_grad_shipped 2%nat 1%nat wP wY 1%nat 0%nat) (grad_spec 2%nat 1%nat wP wY 1%nat 0%nat) = true)
+  exists 3%nat, 1%nat, wP, wY, 0%nat, 0%nat. intros H.
+  assert (E : qeqb (exact_grad_shipped 3%nat 1%nat wP wY 0%nat 0%nat) (grad_spec 3%nat 1%nat wP wY 0%nat 0%nat) = true)
     by (apply qeqb_ok; exact H).
   vm_compute in E. discriminate.
 Qed.
@@ -142,9 +142,9 @@ Qed.
 Example zero_mean_centres_nonvacuous : (@of_nat Qc _ 3%nat) <> 0%Qc.
 Proof. apply Qc_of_nat_neq0. discriminate. Qed.
 
-Example dense_symmetrise_nonvacuous : total 2%nat (dsym wP) <> 0%Qc.
+Example dense_symmetrise_nonvacuous : total 3%nat (dsym wP) <> 0%Qc.
 Proof.
-  intros H. assert (E : qeqb (total 2%nat (dsym wP)) 0%Qc = true) by (apply qeqb_ok; exact H).
+  intros H. assert (E : qeqb (total 3%nat (dsym wP)) 0%Qc = true) by (apply qeqb_ok; exact H).
   vm_compute in E. discriminate.
 Qed.
 
